@@ -341,3 +341,34 @@ func RunScript(path string, args []string, script string, timeout time.Duration)
 	}
 	return Unknown, txt
 }
+
+// Raw sends text to the solver without expecting an answer.
+func (s *Solver) Raw(text string) {
+	io.WriteString(s.in, text)
+}
+
+// RawCheck sends text that ends with one (check-sat) and reads the verdict.
+func (s *Solver) RawCheck(text string) Result {
+	t0 := time.Now()
+	io.WriteString(s.in, text)
+	s.Queries++
+	line, err := s.readLine()
+	for err == nil && strings.HasPrefix(line, "(error") {
+		s.Errors = append(s.Errors, line)
+		line, err = s.readLine()
+	}
+	s.SolverNS += time.Since(t0).Nanoseconds()
+	switch line {
+	case "sat":
+		return Sat
+	case "unsat":
+		return Unsat
+	}
+	if err != nil {
+		s.Errors = append(s.Errors, "solver died: "+err.Error())
+		s.Close()
+		s.start()
+		s.inPath = false
+	}
+	return Unknown
+}
